@@ -458,6 +458,9 @@ func (x *Exec) solve(res *FnResult, opt Options) {
 		if pathMS > 4000 {
 			pathMS = 4000
 		}
+		if x.cx.bv && opt.TimeoutMS >= 10000 {
+			pathMS = 10000 // bit-vector goals are decided by bit-blasting: heavier, but never "stuck"; give them room under load
+		}
 		s := x.compose(prelude, p, -1, pathMS, &refs, pi)
 		if len(refs) == 0 {
 			continue
@@ -543,11 +546,16 @@ func (x *Exec) solve(res *FnResult, opt Options) {
 					}
 					continue
 				}
-				s := x.compose(prelude, x.paths[in.ref.path], in.ref.idx, opt.TimeoutMS, nil, in.ref.path)
+				// bit-vector goals: the only reason to be undecided is time (machine load); escalate with five times the limit
+				escMS := opt.TimeoutMS
+				if x.cx.bv {
+					escMS = 5 * opt.TimeoutMS
+				}
+				s := x.compose(prelude, x.paths[in.ref.path], in.ref.idx, escMS, nil, in.ref.path)
 				t1 := time.Now()
 				// first a short attempt in the lean context (see below): goals that are plain arithmetic over the path
 				// are decided at once there, whatever the quantified hypotheses do to a solver's search
-				if lean := leanScript(strings.Replace(s, fmt.Sprintf("(set-option :timeout %d)", opt.TimeoutMS), "(set-option :timeout 5000)", 1)); lean != s {
+				if lean := leanScript(strings.Replace(s, fmt.Sprintf("(set-option :timeout %d)", escMS), "(set-option :timeout 5000)", 1)); lean != s {
 					o0, _, sv0, _ := raceSolvers([]string{"z3", "z3-new"}, lean, []checkRef{in.ref}, 8000)
 					if c, ok := o0[in.ref.idx]; ok && c.status == "unsat" {
 						in.status = "unsat"
@@ -556,7 +564,7 @@ func (x *Exec) solve(res *FnResult, opt Options) {
 						continue
 					}
 				}
-				o2, raw2, sv, _ := raceSolvers([]string{"z3-new", "cvc5", "z3"}, s, []checkRef{in.ref}, opt.TimeoutMS+10000)
+				o2, raw2, sv, _ := raceSolvers([]string{"z3-new", "cvc5", "z3"}, s, []checkRef{in.ref}, escMS+10000)
 				if c, ok := o2[in.ref.idx]; ok && (c.status == "unsat" || c.status == "sat") {
 					in.status = c.status
 					in.solver = sv
